@@ -18,6 +18,8 @@ import (
 
 	_ "verif/mc/checks"
 	"verif/mc/core"
+	"verif/mc/drv"
+	"verif/mc/store"
 )
 
 func main() {
@@ -47,6 +49,8 @@ func main() {
 			usage()
 		}
 		os.Exit(core.RunCheck(os.Args[2], tier))
+	case "run":
+		adhoc(os.Args[2:])
 	case "worker":
 		os.Exit(worker(os.Args[2:]))
 	case "reduce":
@@ -61,6 +65,46 @@ func main() {
 		os.Exit(core.RunReplay(os.Args[2]))
 	default:
 		usage()
+	}
+}
+
+// adhoc: kvqlmc run '<query>' [k=v,k=v] [row|batch] [B]  (debugging aid)
+func adhoc(args []string) {
+	if len(args) < 1 {
+		usage()
+	}
+	var ps []store.Pair
+	if len(args) > 1 && args[1] != "" {
+		for _, kv := range strings.Split(args[1], ",") {
+			p := strings.SplitN(kv, "=", 2)
+			if len(p) == 2 {
+				ps = append(ps, store.Pair{K: p[0], V: p[1]})
+			}
+		}
+	}
+	modes := []string{drv.Row, drv.Batch}
+	if len(args) > 2 && args[2] != "" {
+		modes = []string{args[2]}
+	}
+	b := 2
+	if len(args) > 3 {
+		b, _ = strconv.Atoi(args[3])
+	}
+	for _, m := range modes {
+		st := store.New(ps)
+		out := drv.Run(args[0], st, drv.Opt{Mode: m, B: b})
+		fmt.Printf("[%s B=%d] %s\n", m, b, out.Describe())
+		if out.Plan != nil {
+			fmt.Printf("   plan: %s\n", strings.Join(out.Explain, " <- "))
+		}
+		if out.Panic != "" {
+			fmt.Println(out.Stack)
+		}
+		var logs []string
+		for _, o := range st.Log {
+			logs = append(logs, o.String())
+		}
+		fmt.Printf("   calls: %s\n   store after: %s\n", strings.Join(logs, " "), st.Canon())
 	}
 }
 
